@@ -51,6 +51,12 @@ func NewRealWorld() *RealWorld {
 	return w
 }
 
+// StopVia stops the manager as an operation under test; Close will not stop it a second time.
+func (w *RealWorld) StopVia(ctx context.Context) error {
+	w.stopped = true
+	return w.Mgr.Stop(ctx)
+}
+
 func (w *RealWorld) Close() {
 	if !w.stopped {
 		w.stopped = true
